@@ -217,7 +217,7 @@ CLAIMS = {
              "recorded compute/validate calls (unit vectors over every position x character, seeded random, "
              "ill-formed) replayed by the kernel on every run - correspondence, not a theorem about all inputs. "
              "tools/natref.py is a second independent reading of the rules used by the failing-input search. At the "
-             "IBAN level (`new_national_eq`, `iban_accept_iff`, `live_<country>_iban`): IBAN(text, validate_bban=True) "
+             "IBAN level (`new_national_eq`, `iban_accept_iff`, `live_<country>_iban` for all 22 countries): IBAN(text, validate_bban=True) "
              "succeeds exactly when the text is valid without national validation and its BBAN satisfies the "
              "country's rule; `national_error_sound`: an error raised with national validation is the error "
              "without it or names a rule that really fails.",
